@@ -29,7 +29,7 @@ class Undecided(Exception):
 # ----------------------------------------------------------------------------------------
 def parse_vspec(path):
     g = {"name": os.path.basename(path)[:-6], "path": path, "prelude": [], "lemmas": [], "renames": [],
-         "exprmap": [], "macro_map": {}, "units": [], "uses": [], "broadcast": [], "raw": []}
+         "exprmap": [], "macro_map": {}, "units": [], "uses": [], "broadcast": [], "raw": [], "includes": [], "typemap": []}
     unit = None
     cur = None  # (target_list_or_dict, key) accumulating text
     buf = []
@@ -76,12 +76,19 @@ def parse_vspec(path):
                 g["prelude"] += arg.split()
             elif d == "lemmas":
                 g["lemmas"] += arg.split()
+            elif d == "trusted_include":
+                g["includes"] += arg.split()
+            elif d.startswith("#"):
+                pass
             elif d == "rename":
                 a, b = arg.split("=>")
                 g["renames"].append((a.strip(), b.strip()))
             elif d == "exprmap":
                 a, b = arg.split("=>")
                 g["exprmap"].append((a.strip(), b.strip()))
+            elif d == "typemap":
+                a, b = arg.split("=>")
+                g["typemap"].append((a.strip(), b.strip()))
             elif d == "macro":
                 a, b = arg.split("=>")
                 g["macro_map"][a.strip()] = b.strip()
@@ -209,7 +216,7 @@ def run_vx(group, vac=False):
                "pre_attrs": u.get("pre_attrs", []), "drop_fields": u.get("drop_fields", [])}
         units.append(req)
     job = {"repo": REPO, "units": units, "renames": group["renames"], "macro_map": group["macro_map"],
-           "expr_map": group["exprmap"]}
+           "expr_map": group["exprmap"], "type_map": group.get("typemap", [])}
     p = subprocess.run([VX], input=json.dumps(job), capture_output=True, text=True)
     if p.returncode != 0:
         raise Undecided("extractor-failure", p.stderr[-2000:])
@@ -289,6 +296,11 @@ def assemble(group, outs, vac_names=None):
     for b in bcasts:
         lines.append(f"    broadcast use super::{b};")
     line_map = []
+    for inc in group["includes"]:
+        t = open(os.path.join(VERIF, "prelude", "inc", inc + ".rs")).read()
+        start = len(lines) + 1
+        lines += t.split("\n")
+        line_map.append((start, len(lines), "include:" + inc))
     for lf in group["lemmas"]:
         t = open(os.path.join(VERIF, "specs", "lemmas", lf + ".rs")).read()
         start = len(lines) + 1
